@@ -83,6 +83,18 @@ def gen(rng, tier):
                 a1 = G.float_dist(rng, ty, n, positive=False) if rng.chance(1, 2) else G.grid_dist(rng, n, 8)
                 a2 = G.float_dist(rng, ty, n, positive=False) if rng.chance(1, 2) else G.grid_dist(rng, n, 8)
                 out += pair_cases(rng, tier, ty, n, (s1[0], s1[1], a1), (s2[0], s2[1], a2), "sweep")
+        # joint (2-D) domains used as one domain, rectangular shapes included; every guard of the ladder is hit
+        # deterministically (both vacuous, both dogmatic, one of each, ordinary)
+        for (n0, n1) in ((2, 3), (3, 2), (2, 2)):
+            n = n0 * n1
+            for k1, k2 in (("vac", "vac"), ("dog", "dog"), ("vac", "part"), ("part", "dog"), ("part", "part"), (None, None)):
+                for rep in range(1 if tier == "quick" else 20):
+                    w1 = G.grid_opinion(rng, n, 16, k1)
+                    w2 = G.grid_opinion(rng, n, 16, k2)
+                    for fam in ("marr", "marrd", "marrdn"):
+                        for opk in range(4):
+                            out.append(Case("fuse2d", ty, fam, rng.choice(["own", "ref", "assign"]), [n0, n1, opk],
+                                            flat_op(w1) + flat_op(w2), mop="fuse", mdims=[n, opk, 0], tag="joint_domain"))
         # the property's own example (nearly vacuous operands, distinct base rates)
         for t1, t2 in ((5.7e-16, 6.1e-16), (1e-12, 3e-13), (2.2e-16, 1.1e-16)) if ty == "f64" else ((1.2e-7, 2.4e-7), (6e-8, 6e-8)):
             u1, u2 = num.rnd(ty, 1.0 - t1), num.rnd(ty, 1.0 - t2)
@@ -96,6 +108,8 @@ def gen(rng, tier):
 def predicates(c, ri, rm):
     n = c.mdims[0]
     opk = c.mdims[1]
+    if ri[0] == "BAD" and "panicked" in str(ri[1]):
+        return ["fusion result cannot be read back: %s" % (ri[1],)]
     if c.op == "fuse_ss" and opk == 1:
         return [] if ri[0] == "PANIC" else ["epistemic fusion of two bare simplexes was not refused"]
     if ri[0] != "OK":
